@@ -49,6 +49,8 @@ ASSUMPTIONS = [
     "element lookup is decided by exact float comparisons against the code's own element_interval, and the intervals against the "
     "requested partition (k/nel within 2 ulp for uniform data, exactly the user data otherwise)",
     "xi restricted to [0, 1] (float scalars and lists), intervals with a < b, Lobatto n >= 2, degrees 1..5, nel 1..12 as quantified in the property",
+    "values of basis derivatives of order >= 2 are not judged (the property asks only for their zero sum); a mismatch with the exact "
+    "derivative is counted under counters['info:derivative_order>=2_differs_from_exact_derivative(not judged)']",
     "node numbering along the rod (node k of element el is global node el*p+k, resp. el*(p+1)+k for Lagrange_Disc) is taken from the code's "
     "documented nnodes formulas and is reported under its own violation text",
 ]
